@@ -30,12 +30,19 @@ class VtOrd8(callbacks.Plugin):
     callBefore = tuple(getattr(_cfg(), 'before', {}).get('VtOrd8', ())) if _cfg() is not None else ()
     callAfter = list(getattr(_cfg(), 'after', {}).get('VtOrd8', ())) if _cfg() is not None else []
 
+    def callPrecedence(self, irc):
+        c = _cfg()
+        if c is not None and 'VtOrd8' in getattr(c, 'prec_raises', ()):
+            # (firewalled: the dispatcher then treats this plugin as one without constraints)
+            raise RuntimeError('vt_c20: callPrecedence of VtOrd8 raises, see http://example.org/caf%c3%a9%20%bar?x=%s')
+        return super().callPrecedence(irc)
+
     def die(self):
         c = _cfg()
         if c is not None:
             c.log.append(('die', 'VtOrd8'))
             if 'VtOrd8' in c.die_raises:
-                raise RuntimeError('vt_c20: die of VtOrd8 made to raise')
+                raise RuntimeError('vt_c20: die of VtOrd8 made to raise, see http://example.org/caf%c3%a9%20%bar?x=%s')
         super().die()
 
     def __call__(self, irc, msg):
@@ -43,6 +50,12 @@ class VtOrd8(callbacks.Plugin):
         if c is not None and msg.command == 'PRIVMSG' and msg.args[1].startswith('vtorder'):
             c.seen.append('VtOrd8')
         return super().__call__(irc, msg)
+
+    def vtsh4(self, irc, msg, args):
+        """takes no arguments
+
+        A command here; the plugin VtOrd9 has a helper method of the same name."""
+        irc.reply('VtOrd8 shared g%d' % self.vt_serial)
 
     def ord8(self, irc, msg, args):
         """takes no arguments
